@@ -2,14 +2,14 @@ SPECIFICATION Spec
 CONSTANTS
   Apps <- AllApps
   Catching <- Both
-  Verbs <- Verbs1
-  MCLines <- LinesAll
-  Pres <- PresAll
-  MaxListeners = 1
-  ListenerKinds <- KindsOne
+  Verbs <- Verbs2
+  MCLines <- LinesTwo
+  Pres <- PresNone
+  MaxListeners = 2
+  ListenerKinds <- KindsFew
   ListenerValues <- ValuesL
   OutValues <- ValuesFew
-  OutKinds <- KindsOne
+  OutKinds <- KindsFew
   Emitting = TRUE
 INVARIANT PContained
 INVARIANT PZeroIff
